@@ -697,7 +697,7 @@ class _Activation:
         return set()
 
     def bind(self, f: FuncInfo, argv, kwv, recv) -> Dict[str, Set[Obj]]:
-        params = list(f.params)
+        params = list(f.own_params)
         out: Dict[str, Set[Obj]] = {}
         if recv is not None and params:
             out[params[0]] = recv
@@ -774,7 +774,7 @@ class _Activation:
                         a_objs = [self._eval_in_def(x, pos) for x in lst.elts]
                     else:
                         el = self.elems(self.eval(pos))
-                        a_objs = [el for _ in f.params]
+                        a_objs = [el for _ in f.own_params]
                 if kws is not None:
                     d = self._literal(kws)
                     if isinstance(d, ast.Dict):
